@@ -309,6 +309,10 @@ func (g *Generator) generateWithoutSaving(parents []*theTypeInfo, t reflect.Type
 			}
 		} else {
 			schema.Type = &openapi3.Types{"array"}
+			if t.Name() != "" {
+				// a named list type may contain itself (type S []S): the cycle is closed by its name
+				g.structSchemas[t] = schema
+			}
 			items, err := g.generateSchemaRefFor(parents, t.Elem(), name, tag)
 			if err != nil {
 				if _, ok := err.(*CycleError); ok && !g.opts.throwErrorOnCycle {
@@ -325,6 +329,10 @@ func (g *Generator) generateWithoutSaving(parents []*theTypeInfo, t reflect.Type
 
 	case reflect.Map:
 		schema.Type = &openapi3.Types{"object"}
+		if t.Name() != "" {
+			// a named map type may contain itself (type M map[string]M): the cycle is closed by its name
+			g.structSchemas[t] = schema
+		}
 		additionalProperties, err := g.generateSchemaRefFor(parents, t.Elem(), name, tag)
 		if err != nil {
 			if _, ok := err.(*CycleError); ok && !g.opts.throwErrorOnCycle {
@@ -490,12 +498,24 @@ func (g *Generator) generateCycleSchemaRef(t reflect.Type, schema *openapi3.Sche
 	case reflect.Ptr:
 		return g.generateCycleSchemaRef(t.Elem(), schema)
 	case reflect.Slice:
+		if own, ok := g.structSchemas[t]; ok && t.Name() != "" {
+			// the named list type is itself part of the cycle: unrolling it would never end
+			typeName = g.generateTypeName(t)
+			schema = own
+			break
+		}
 		ref := g.generateCycleSchemaRef(t.Elem(), schema)
 		sliceSchema := openapi3.NewSchema()
 		sliceSchema.Type = &openapi3.Types{"array"}
 		sliceSchema.Items = ref
 		return openapi3.NewSchemaRef("", sliceSchema)
 	case reflect.Map:
+		if own, ok := g.structSchemas[t]; ok && t.Name() != "" {
+			// the named map type is itself part of the cycle: unrolling it would never end
+			typeName = g.generateTypeName(t)
+			schema = own
+			break
+		}
 		ref := g.generateCycleSchemaRef(t.Elem(), schema)
 		mapSchema := openapi3.NewSchema()
 		mapSchema.Type = &openapi3.Types{"object"}
